@@ -790,9 +790,10 @@ func (c *Ctx) normalizeHelpers(all map[*ssa.Function]bool) map[*ssa.Function]boo
 		}
 	}()
 	if len(il.cand) == 0 {
-		il.finishUp(modFns, nil)
+		gone := map[*ssa.Function]bool{}
+		il.finishUp(modFns, gone)
 		c.memo["inline.log"] = il.Log
-		return nil
+		return gone
 	}
 	// drop candidates on a cycle of candidates
 	callees := func(f *ssa.Function) []*ssa.Function {
@@ -1204,8 +1205,9 @@ func localClosure(v ssa.Value) *ssa.MakeClosure {
 // finishUp: closure expansion at calls inside loops, devirtualisation and
 // validation of everything that was rewritten.
 func (il *inliner) finishUp(modFns []*ssa.Function, dead map[*ssa.Function]bool) {
-	// a local closure called inside a loop (`add := func(name …){ flags.Var(…) }` applied
-	// to every row of a table) is expanded at those calls
+	// a local closure that is called directly (`add := func(name …){ flags.Var(…) }` applied
+	// to every row of a table, `note := func(p **Path){ setPath(…) }` used in eight
+	// branches) is expanded at those calls
 	il.allowClosure = true
 	for _, f := range modFns {
 		if len(f.Blocks) == 0 || dead[f] {
@@ -1215,10 +1217,8 @@ func (il *inliner) finishUp(modFns []*ssa.Function, dead map[*ssa.Function]bool)
 			inCycle := blocksInCycles(f)
 			var site *ssa.Call
 			var g *ssa.Function
+			_ = inCycle
 			for _, b := range f.Blocks {
-				if !inCycle[b] {
-					continue
-				}
 				for _, in := range b.Instrs {
 					call, ok := in.(*ssa.Call)
 					if !ok || site != nil {
@@ -1257,7 +1257,33 @@ func (il *inliner) finishUp(modFns []*ssa.Function, dead map[*ssa.Function]bool)
 			}
 			il.inlineCall(f, site, g)
 			il.touched = append(il.touched, f)
-			il.Log = append(il.Log, fmt.Sprintf("expanded closure %s at its call inside a loop of %s", g, f))
+			il.Log = append(il.Log, fmt.Sprintf("expanded closure %s at its call in %s", g, f))
+			// a closure with no use left is gone (its slot among the parent's
+			// anonymous functions stays, so that the names of its siblings do
+			// not shift)
+			for _, b := range f.Blocks {
+				var out []ssa.Instruction
+				for _, in := range b.Instrs {
+					if mc, ok := in.(*ssa.MakeClosure); ok && mc.Fn == ssa.Value(g) {
+						n := 0
+						for _, r := range *mc.Referrers() {
+							if _, isDbg := r.(*ssa.DebugRef); !isDbg {
+								n++
+							}
+						}
+						if n == 0 {
+							g.Blocks = nil
+							if dead != nil {
+								dead[g] = true
+							}
+							continue
+						}
+					}
+					out = append(out, in)
+				}
+				b.Instrs = out
+			}
+			finishFunc(f)
 		}
 	}
 	il.allowClosure = false
